@@ -963,7 +963,7 @@ fn unary(input: Span) -> IResult<Span, Expr> {
 
     match opt_op {
         None => atomic(input),
-        Some(op) => expect_fn(atomic, |qc, r| {
+        Some(op) => expect_fn(atomic.preceded_by(multispace0), |qc, r| {
             qc.report_error_for("expecting expression for unary operator")
                 .with_code_range(r, "-")
                 .send_report()
